@@ -13,13 +13,14 @@ class ValidateArrayOutOfBoundsAccessVisitor(Visitor.DefaultVisitor):
 
         if isinstance(rhs, ast.LiteralExpression):
             arrayType = expr.GetParent().GetType()
-            lastDimensionSize = arrayType.GetSize()[-1]
+            # An index selects the first (remaining) dimension
+            dimensionSize = arrayType.GetSize()[0]
             accessValue = rhs.GetValue()
 
-            if lastDimensionSize <= accessValue:
+            if accessValue < 0 or dimensionSize <= accessValue:
                 self.valid = False
                 Errors.ERROR_ARRAY_ACCESS_OUT_OF_BOUNDS.Raise(
-                    lastDimensionSize, accessValue
+                    dimensionSize, accessValue
                 )
 
     def v_Expression(self, expr, ctx=None):
